@@ -61,4 +61,9 @@ LEVELS = {
         "text": "Round-trip oracle over shapes (exhaustive in the thorough tier), element types and hostile values for all five entry points; injected write faults must surface as Err.",
         "note": "Readers of the same crate versions are trusted; fault set limited to what root cannot write.",
     },
+    "C02": {
+        "technique": "runtime monitoring: shadow execution of every HMC row against an f64 leapfrog/Metropolis reference fed with the draws recorded at the hook; metamorphic row-independence and reversibility checks",
+        "text": "Each observed HMC row update is replayed by an independent integrator with closed-form gradients using exactly the momentum and uniform the step consumed; the decision and the endpoint are compared with sensitivity-derived tolerances. Exploration over targets, step sizes, L, batch shapes and precisions.",
+        "note": "Takes the hooked draws as given (their distribution is C06's business); closed-form gradients guarded by a tensor-vs-closed-form self-check (mv SELF).",
+    },
 }
